@@ -27,6 +27,18 @@ STORES = {
 }
 
 PROPS = {
+    "C14": {
+        "custom": "c14driver",
+        "engine": "crashkill",
+        "level": "fault_enumeration",
+        "tiers": {"quick": {}, "thorough": {}},
+        "rule": "seeded workload scripts (3-14 ops quick, 3-40 thorough: Append with explicit type/data/timestamp, SaveOffset of an acknowledged offset, clean Close+reopen, Read) are executed by a child process on a real SQLite file; a dry run under strace -P <db,-wal,-shm> records its pwrite64/fsync/fdatasync/ftruncate/unlink calls (twice: the sequence must be identical), then the workload is re-run once for EVERY such call k with SIGKILL injected on entering it; further cases inject ENOSPC/EIO into the k-th write/sync/truncate, and chained cases kill, recover, continue with a second and third generated workload and kill again. A fresh child reopens the file twice and dumps log, saved offsets and schema rows. A case counts when the injected fault actually landed; distinct = distinct (workload, fault sequence).",
+        "components": {"SQLite store": "real stores/sqlite code (uninstrumented copy of /repo's working tree) in a real child process", "SQLite engine": "real modernc.org/sqlite on a real file (WAL mode as the store configures it)",
+                       "disk / process death": "real kernel; SIGKILL and write/sync errors injected by strace at system-call entry, addressed by (system call, k-th occurrence) on the database files", "scheduler": "not simulated (single-threaded workload); determinism comes from the identical system-call sequence, re-verified on every run"},
+        "assumptions": ["process kill only: the page cache survives, so power loss (un-fsynced data dropped) is out of scope, as in the property's own words", "the kill lands on ENTRY to a system call: both 'the write happened' and 'it did not' are covered by adjacent kill points, partial writes inside one call are not",
+                        "an append that was not acknowledged (in flight at the kill, or failed with an injected disk error) may be present or absent; everything acknowledged must be present, in order, byte-identical, under the acknowledged offset"],
+        "level_note": "Trusts strace's injection semantics and the kernel; the store, the SQL driver and SQLite are all real. Every crash point of each generated workload is enumerated; workloads, disk errors and multi-generation chains are sampled.",
+    },
     "C12": {
         "tiers": tiers(2000, 60000, quick_budget=40),
         "rule": "rapid-generated history of 1-3 process incarnations plus a final fault-free one on the same MemoryStore or SQLite file: in each, a publisher task publishes 0-6 events of the four event-type shapes while a subscriber task calls SubscribeWithReplay for 1-2 subscription ids at drawn points (so publishes interleave with a running SubscribeWithReplay at scheduler-chosen points); an incarnation ends cleanly or crashes right after (or before) its m-th store operation - every Append, Read, streamed row, SaveOffset and LoadOffset counts - after which its tasks are dead: the decorator refuses their store calls and their deliveries are ignored; at most one store operation in the run fails (append/read/save/load, before its effect or with the acknowledgement lost); + choice tape. Oracle over the concatenated delivery history and the durable saves. Non-trivial: a crash or fault happened or more than one incarnation; distinct = (scenario shape, schedule trace hash, history hash).",
